@@ -710,7 +710,13 @@ func (r *Renderer) renderTexts(w util.BufWriter, source []byte, n ast.Node) {
 		if s, ok := c.(*ast.String); ok {
 			_, _ = r.renderString(w, source, s, true)
 		} else if t, ok := c.(*ast.Text); ok {
-			_, _ = r.renderText(w, source, t, true)
+			if !t.IsRaw() && (t.HardLineBreak() || (t.SoftLineBreak() && r.HardWraps)) {
+				// an attribute value cannot contain a <br> tag: the break is a newline here
+				r.Writer.Write(w, t.Segment.Value(source))
+				_ = w.WriteByte('\n')
+			} else {
+				_, _ = r.renderText(w, source, t, true)
+			}
 		} else {
 			r.renderTexts(w, source, c)
 		}
